@@ -5,7 +5,7 @@ V = os.path.dirname(os.path.dirname(os.path.abspath(__file__)))
 TECH = "contract-based deductive verification: VCs generated from go/ssa of /repo by govc, discharged by z3/z3-new/cvc5"
 TB = ("Trusted: govc itself (VC generator, written in this task), go/ssa (x/tools v0.29.0), the SMT solvers; "
       "int/uint treated as mathematical integers; allocation succeeds; single goroutine; "
-      "contracts marked 'trusted' in /repo/v2/**/zz_contracts_verif.go and /verif/spec/stdlib.gvs are assumed, not proved; "
+      "contracts marked 'trusted' in /repo/v2/**/zz_contracts*_verif.go and /verif/spec/stdlib.gvs are assumed, not proved; "
       "the per-run list is in the evidence file (trusted_base, assumptions).")
 claimed = json.load(open(os.path.join(V, "tools", "claims.json")))
 allids = [json.loads(l)["id"] for l in open(os.path.join(V, "properties.jsonl"))]
@@ -34,7 +34,7 @@ m = {
     "setup_cmd": "cd /verif/govc && GOFLAGS=-mod=vendor GOPROXY=off GOSUMDB=off GOTOOLCHAIN=local go build -o /verif/bin/govc ./cmd/govc",
     "hooks": {
         "guard": "verif",
-        "enable": "go build -tags verif (the checks load /repo/v2 with -tags verif; guarded files zz_contracts_verif.go hold contracts as //@ comments and proof-harness functions)",
+        "enable": "go build -tags verif (the checks load /repo/v2 with -tags verif; guarded files zz_contracts*_verif.go hold contracts as //@ comments and proof-harness functions)",
         "baseline_off_cmd": "cd /repo/v2 && GOFLAGS=-mod=mod GOPROXY=off GOSUMDB=off go test -vet=off -count=1 ./...",
         "source_commits": hooks,
         "add_only": True,
@@ -43,7 +43,7 @@ m = {
                  "kind_free_text": "self-built deductive verifier for Go: weakest-precondition style VC generation over go/ssa with contracts (requires/ensures/invariants/modifies/ghost state/lemmas), SMT back ends z3 4.8.12, z3-new 5.1.0, cvc5 1.0.3"}],
     "checks": checks,
     "not_applicable": na,
-    "notes": "See DESIGN.md. Contracts live in /repo/v2/**/zz_contracts_verif.go (build tag verif); oracles and trusted stdlib contracts in /verif/spec/*.gvs; per-property function slices in /verif/props/*.json; known findings in /verif/KNOWN_FINDINGS.json.",
+    "notes": "See DESIGN.md. Contracts live in /repo/v2/**/zz_contracts*_verif.go (build tag verif); oracles and trusted stdlib contracts in /verif/spec/*.gvs; per-property function slices in /verif/props/*.json; known findings in /verif/KNOWN_FINDINGS.json.",
 }
 json.dump(m, open(os.path.join(V, "MANIFEST.json"), "w"), indent=1)
 print("checks:", len(checks), "not_applicable:", len(na))
